@@ -163,7 +163,16 @@ def step (st : St) (line : String) : St × String :=
       let t := geomOf st.twod r (st.recvs.getD r {})
       (st, "ok D" ++ String.join (d.map fun c => s!" {c}") ++ " T" ++ String.join (t.map fun c => s!" {c}"))
     | none => (st, "bad-op")
-  | ["locate"] => (st, runLocate st)
+  | "locate" :: counts =>
+    -- the counts of node / cell / boundary lines of every rank, donor then receptor
+    match counts.mapM nat8? with
+    | some cs =>
+      let expect := (List.range st.np).flatMap fun r =>
+        let d := st.donors.getD r {}
+        let t := st.recvs.getD r {}
+        [d.nodes.size, d.cells.size, d.bnd.size, t.nodes.size, t.cells.size, t.bnd.size]
+      if cs == expect then (st, runLocate st) else (st, "bad-op")
+    | none => (st, "bad-op")
   | _ => (st, "bad-op")
 
 /-- `refdrv interplocate NP`: the rank count the harness runs on (a `reset` with another count is `bad-op`) -/
